@@ -577,11 +577,17 @@ private:
     auto& wheel = _wheels[level];
     auto& bucket = wheel.buckets[wheel.currentTick & _tickMask];
 
+    // Detach the whole list first: an entry whose remaining delay is still a multiple
+    // of this level's span (a delay beyond the wheel's range) is re-inserted into this
+    // very bucket, and walking the live list would then visit it again and again.
     auto* entry = bucket.head;
+    bucket.head = nullptr;
+    bucket.tail = nullptr;
     while (entry)
     {
       auto* next = entry->next;
-      bucket.unlink(entry);
+      entry->prev = nullptr;
+      entry->next = nullptr;
 
       if (entry->deadline <= now)
       {
